@@ -458,3 +458,62 @@ def sep_docs():
     # not TOML: a control character of the splitlines() set inside a comment (tomlkit rejects the defaults)
     for sep in CTRL_SEPS:
         yield [("comment", "# c" + sep + "[zz]"), K("a", 0)]
+
+
+# ---------------------------------------------------------------------------------------
+# round 5: application names.  load_config_toml(appname, ...) addresses <config dir>/<appname>/<appname>.toml
+# (os.path.join(get_config_dir(appname), appname + ".toml")).  Admissible = a name that is one path component and
+# whose file name fits the file system: no "/" or NUL, not "", "." or "..", at most 255 bytes with ".toml" appended
+# (established on the unchanged tree: every such name round-trips; "" and "." address files outside the per-app
+# directory, ".." and names with "/" a path whose directory nobody creates, longer names ENAMETOOLONG).
+# Dots are ordinary characters of such a name: version suffixes, reverse-DNS names, a leading / trailing dot,
+# a name that already ends in ".toml" or looks like a multi-suffix archive name.
+APP_DEFAULT = "c20app"
+APP_NAMES = [
+    "aw-server-0.13", "org.example.aw-watcher", "a.b", ".hidden", "trailing.", "aw..x", "a.toml", "x.tar.gz", ".a.b.",
+    "aw-watcher-window_2", "UPPER.lower", "Ünïcode-é", "日本語.アプリ", "with space",
+    "v1.2.3-rc.1+build.5", "a\\b", "~", "--help", "$HOME", "a*b?", "trail ", "c20app.", "c20app.toml", "c20app.bak",
+    "n" * 200, ("v1." * 60)[:-1], "L" * 250, "é" * 125, "." + "d" * 249, "q" * 244 + ".cfg12",
+]
+APP_INADMISSIBLE = ["", ".", "..", "a/b", "/abs", "M" * 251, "é" * 126, "nul\x00"]
+
+
+def app_admissible(name):
+    import os
+    return (name not in ("", ".", "..") and "/" not in name and "\x00" not in name
+            and len(os.fsencode(name + ".toml")) <= 255)
+
+
+def rand_app_name(rng):
+    """mostly names with one or more dots; segments of ASCII / accented / CJK letters, digits, dashes"""
+    r = rng.random()
+    if r < 0.4:
+        return rng.choice(APP_NAMES)
+    segs = []
+    for _ in range(rng.choice([1, 2, 2, 3, 4, 6])):
+        alpha = rng.choice(["abcxyz", "abcxyz", "0123456789", "ABC", "éüñ", "日本", "-_", "aw-"])
+        segs.append("".join(rng.choice(alpha) for _ in range(rng.choice([0, 1, 1, 2, 3, 5, 8, 30]))))
+    name = rng.choice(["", "", "", "."]) + ".".join(segs) + rng.choice(["", "", "", ".", ".toml", ".0"])
+    if rng.random() < 0.05:
+        name = name + "x" * (250 - len(name.encode()))
+    return name if app_admissible(name) else rng.choice(APP_NAMES)
+
+
+# read faults for a load with an existing user file: (kind, argument)
+#   open  : the read-mode open of the configuration file raises OSError(errno)   (injected once)
+#   read  : the open succeeds, f.read() raises OSError(errno)                     (injected once)
+#   chmod : the file has this mode while the load runs (0200: may be written, not read; needs a non-root uid)
+#   undecodable : the file starts with bytes that are not UTF-8 (the read raises UnicodeDecodeError); no injection
+import errno as _errno
+READ_FAULTS = [("open", _errno.EIO), ("open", _errno.EACCES), ("open", _errno.ESTALE), ("open", _errno.EINTR),
+               ("open", _errno.EMFILE), ("open", _errno.ETIMEDOUT), ("read", _errno.EIO), ("read", _errno.ESTALE),
+               ("read", _errno.EISDIR), ("chmod", 0o200), ("chmod", 0o000), ("undecodable", 0)]
+
+
+def fault_corpus():
+    """(default ops, user ops) pairs for the deterministic part of the fault stream"""
+    d1 = [K("b", 8), H("t"), K("a", 0), H("t", "u"), K("a", 0), H("t", "u", "v"), K("a", 0)]
+    u1 = [K("b", 9), K("c", 3), H("t", "u"), K("a", 2), H("mine"), K("a", 15)]
+    d2 = [("comment",), K("a", 0), ("blank",), H("t"), K("a", 15), K("b", 17)]
+    u2 = [K("a", 1)]
+    return [(d1, u1), (d2, u2), ([], u2), (d1, [])]
